@@ -2,6 +2,7 @@ package seams
 
 import (
 	"context"
+	"fmt"
 	"strings"
 	"sync"
 	"time"
@@ -23,6 +24,9 @@ type SessionStore struct {
 	Ops map[string]int
 	// OnOp observes every operation after it ran (kind, key, found).
 	OnOp func(kind, key string, found bool)
+	// KeepWrites records every value ever stored (for the key canary).
+	KeepWrites bool
+	Writes     []string
 }
 
 type sessionEntry struct {
@@ -96,6 +100,14 @@ func (s *SessionStore) Set(_ context.Context, key any, value any, options ...sto
 	}
 	s.mu.Lock()
 	s.m[k] = e
+	if s.KeepWrites && len(s.Writes) < 4000 {
+		switch v := value.(type) {
+		case []byte:
+			s.Writes = append(s.Writes, k+"="+string(v))
+		default:
+			s.Writes = append(s.Writes, k+"="+fmt.Sprint(v))
+		}
+	}
 	s.mu.Unlock()
 	if s.OnOp != nil {
 		s.OnOp("Set", k, true)
